@@ -341,13 +341,15 @@ pub fn gen_model(r: &mut Rng) -> Model {
     let mut exts: Vec<(u32, Option<(String, String)>)> = vec![];
     for fi in 0..n_frame {
         let idn = 60 + r.below(6) as u32; // collisions on purpose
+        let repeated = frame_ids.contains(&idn);
         frame_ids.push(idn);
         let np = if pdu_ids.is_empty() { 0 } else { r.below(5) as usize };
         let pdus = (0..np)
             .map(|k| Inst {
                 id: format!("PI{}_{}", fi, k),
                 seq: seq(r, k),
-                r: if r.chance(1, 40) { "ID_dangling".to_string() } else { r.pick(&pdu_ids).clone() },
+                // a dangling reference must fail loading also in a repeated definition of a frame
+                r: if r.chance(1, if repeated { 8 } else { 40 }) { "ID_dangling".to_string() } else { r.pick(&pdu_ids).clone() },
             })
             .collect();
         let ext = r.chance(3, 4).then(|| ExtDoc {
